@@ -13,6 +13,7 @@ import multiprocessing
 import os
 import re
 import shutil
+import signal
 import threading
 import time
 from concurrent.futures import ThreadPoolExecutor
@@ -24,6 +25,10 @@ from .core import MachineryError
 
 BOOK_INV = ["LedgerExact", "LedgerData", "LedgerTimers", "ArmedOwned", "TimerAgree", "LedgerCounters", "InUseAgrees"]
 LONG_INV = BOOK_INV + ["NoReadyLeft", "NoOverdue", "SerialsUnique"]
+
+RELOAD_LOG = "reload.log"
+RELOAD_MARK = b"Re-reading config file"
+RELOAD_LOGS = [("core.*", "file:" + RELOAD_LOG)]
 
 _STAT = re.compile(rb"S iauth :(\d+)-(\d+) reqs alloc, (\d+) in use; (\d+) data frees")
 _CLI = re.compile(rb"S xquery :\d+-\d+ srv alloc, (\d+) clients alloc")
@@ -72,8 +77,50 @@ class BookDaemon(D.Daemon):
         return lines, (inuse if inuse is not None else -1)
 
     def step(self, e, line=None):
+        if e.get("e") == "RL":
+            return self.reload_step(e)
         rec = D.Daemon.step(self, e, line)
         if rec["e"] == "S" and self.last_stats:
+            rec["st"] = self.last_stats
+        return rec
+
+    # ---- the operator edits `iauth { timeout }` and reloads (SIGUSR1) while requests are pending ---------------
+    def _marks(self):
+        try:
+            with open(os.path.join(self.workdir, RELOAD_LOG), "rb") as f:
+                return f.read().count(RELOAD_MARK)
+        except OSError:
+            return 0
+
+    def reload_step(self, e, deadline=20.0):
+        """Event {"e": "RL", "svcs": <the unchanged service table>, "to": <new timeout text, "" = no timeout line>}: the configuration
+        file is rewritten with that timeout only, SIGUSR1, hand-shake on the daemon's log file, barrier.  For the
+        specifications this is the contract's RL event with an unchanged service table: nothing may be printed, no
+        client is affected, the in-use number stays."""
+        lines0, n0 = self.raw_step(b"")         # the signal handler is installed after the banner: the loop must run
+        if n0 is None:
+            return {"e": "Crash", "ev": e, "partial": [self.parse_line(l) for l in lines0]}
+        before = self._marks()
+        args = dict(self.conf_args, timeout=(e.get("to") or None))
+        with open(self.conf_path, "r+") as f:
+            f.write(D.conf_text(self.build.moddir, self.svcs, **args))
+            f.truncate()
+        self.signal(signal.SIGUSR1)
+        t_end = time.time() + deadline
+        while self._marks() <= before:
+            if self.p.poll() is not None:
+                self.dead = True
+                return {"e": "Crash", "ev": e, "partial": [self.parse_line(l) for l in lines0]}
+            if time.time() > t_end:
+                raise MachineryError("reload hand-shake timed out (process alive, no '%s' in %s)"
+                                     % (RELOAD_MARK.decode(), RELOAD_LOG))
+            time.sleep(0.001)
+        lines, n = self.raw_step(b"")
+        out = [self.parse_line(l) for l in lines0 + lines]
+        if n is None:
+            return {"e": "Crash", "ev": e, "partial": out}
+        rec = {"e": "S", "ev": e, "o": out, "n": n}
+        if self.last_stats:
             rec["st"] = self.last_stats
         return rec
 
@@ -238,7 +285,12 @@ def _hook_worker(args):
             chunk = items[pos:pos + per_proc]
             pn = len(procs)
             procs.append({"bis": [], "live_last": False})
-            d = BookDaemon(b, workdir, svcs, timeout=("1h" if timeout_on else None), modules=("iauth_xquery",))
+            try:
+                os.unlink(os.path.join(workdir, RELOAD_LOG))
+            except OSError:
+                pass
+            d = BookDaemon(b, workdir, svcs, timeout=("1h" if timeout_on else None), modules=("iauth_xquery",),
+                           logs=RELOAD_LOGS)
             w(reset_record(svcs, timeout_on), -1, -1, pn)
             serial = 0
             crashed = d.dead
@@ -288,6 +340,48 @@ def _hook_worker(args):
     with open(trace_path + ".idx", "w") as f:
         json.dump({"index": index, "procs": procs}, f)
     return {"trace": trace_path, "steps": nsteps, "crashes": ncrash, "ubsan": sorted(ub), "lines": line_no}
+
+
+# Client ids are whatever the server chooses (ircu: the socket number): every second history has the model's small ids
+# moved to another part of the int range - across 1024, 4096 and 65536, and at the top of the range.
+ID_MAPS = [0, 1016, 0, 65528, 0, 2147483647 - 40, 0, 4090, 0, 1020]
+
+
+def shift_ids(events, k):
+    off = ID_MAPS[k % len(ID_MAPS)]
+    return [map_ids(e, off) for e in events] if off else events
+
+
+def map_ids(e, off):
+    if not off:
+        return e
+    e = dict(e)
+    if "id" in e and e["id"] >= 0:
+        e["id"] += off
+    if e.get("e") == "X":
+        m = D._TAG.match(e.get("tag", ""))
+        if m:
+            e["tag"] = "%x_%s" % (int(m.group(1), 16) + off, m.group(2))
+    return e
+
+
+def with_reloads(events, svcs, timeout_on, rng, every):
+    """Inserts reloads that change only `iauth { timeout }` (about one per `every` events): to another value and back, to
+    none at all and back (adjacent, so that every announcement is made under the original setting), or - with a
+    timeout configured, where the hook decides when a timer fires - to another non-zero value that stays."""
+    out = []
+    orig = "1h" if timeout_on else ""
+    cur = orig
+    for e in events:
+        if rng.randrange(every) == 0:
+            r = rng.randrange(3)
+            seq = ["" if timeout_on else "30m", orig] if r == 0 else ["2h", orig] if r == 1 else \
+                (["2h" if cur == "1h" else "1h"] if timeout_on else ["45m", ""])
+            for v in seq:
+                out.append({"e": "RL", "svcs": svcs, "to": v})
+                cur = v
+        out.append(e)
+    return out
 
 
 def hook_replay(ctx, behaviours, svcs, timeout_on=True, nproc=6, tag="h", tails=None, **opts):
